@@ -463,10 +463,11 @@ def run_property(prop, tier, seed):
     if new:
         return 1
     if problems or unmet or len(results) < nshards:
-        for p in problems:
+        for n, p in enumerate(problems):
             print('INCONCLUSIVE: ' + p.strip().splitlines()[0])
-            for extra in p.strip().splitlines()[1:][-15:]:
-                print('    ' + extra)
+            if n < 2:
+                for extra in p.strip().splitlines()[1:][-15:]:
+                    print('    ' + extra)
         for u in unmet:
             print('INCONCLUSIVE: must-observe not met: ' + u)
         return 2
